@@ -116,7 +116,7 @@ def rand_expr(r, dim):
 
 
 QUERIES = ["is_empty", "is_empty", "is_universe", "is_bounded", "contains", "strictly_contains", "is_disjoint_from",
-           "relation_with_con", "relation_with_con", "maximize", "minimize", "bounds_from_above", "bounds_from_below",
+           "relation_with_con", "relation_with_con", "relation_with_cg", "relation_with_gen", "maximize", "minimize", "bounds_from_above", "bounds_from_below",
            "constraints", "congruences", "is_discrete", "constrains", "equals", "affine_dimension", "domains",
            "is_topologically_closed", "minimized_constraints"]
 
@@ -127,6 +127,10 @@ def rand_query(r, x, y, dim, kinds):
         return "qry %d %s %d" % (x, q, y)
     if q == "relation_with_con":
         return "qry %d %s %s" % (x, q, rand_con(r, dim, "N", allow_strict=("N" in kinds and "G" not in kinds and "B" not in kinds and "S" not in kinds and "C" not in kinds)))
+    if q == "relation_with_cg":
+        return "qry %d %s %s" % (x, q, rand_cg(r, dim))
+    if q == "relation_with_gen":
+        return "qry %d %s p %d %s" % (x, q, r.choice([1, 2, 2, 3]), " ".join(str(r.randint(-4, 4)) for _ in range(dim)))
     if q in ("maximize", "minimize", "bounds_from_above", "bounds_from_below"):
         return "qry %d %s %s" % (x, q, rand_expr(r, dim))
     if q == "constrains":
@@ -432,6 +436,106 @@ def transformer_case(r, cid, pair, pol):
     return lines
 
 
+def predicate_case(r, cid, pair, pol):
+    """Definite answers of the product's predicates (relation_with a Constraint / Congruence / Generator, contains, is_disjoint_from,
+    maximize / minimize, bounds_from_*) on every layout.  The non-grid components are thin slabs with RATIONAL bounds (halves,
+    thirds) placed relative to the hyperplanes of a congruence a.x + b = 0 (mod m) with negative coefficients / negative residues:
+    strictly beyond the hyperplane nearest to zero and touching, crossing or stopping short of the next one; the grid components
+    carry congruences through an integer point.  Arguments: points with NON-UNIT divisors (whose numerators alone satisfy the
+    grid's congruences, or which are real points of the intersection), rays and lines; that congruence and shifted / scaled
+    variants; constraints touching and crossing the components."""
+    from fractions import Fraction as F
+    kinds = KINDS[pair]
+    dim = r.choice([1, 2, 2, 2, 3])
+    p0 = [r.randint(-3, 3) for _ in range(dim)]
+    v = r.randrange(dim)
+    a = r.choice([-2, -1, 1, 2, -3, 3, -2, -1]); m = r.choice([2, 2, 3, 4]); b = r.randint(-3, 3)
+    ea = [0] * dim; ea[v] = a
+    if dim > 1 and r.random() < 0.3: ea[(v + 1) % dim] = r.choice([1, -1])
+    simple = sum(1 for x in ea if x) == 1
+    j = r.randint(-4, 2)                                  # e ranges beyond hyperplane m*j towards m*(j+1) (or the mirror image)
+    t1 = r.choice([F(1, 4), F(1, 2), F(1, 3), F(2, 3)])
+    reach = r.choice(["touch", "cross", "short", "cross", "touch"])
+    t2 = {"touch": F(0), "cross": r.choice([F(1, 4), F(1, 2), F(1, 3)]), "short": -r.choice([F(1, 4), F(1, 5)])}[reach]
+    lo_e, hi_e = m * j + m * t1, m * (j + 1) + m * t2
+    if r.random() < 0.5: lo_e, hi_e = -hi_e, -lo_e        # mirrored: the nearer hyperplane is the upper one
+    def slab(k):
+        cs = []
+        if simple and k != "S" and k != "O" or (simple and k in ("S", "O")):
+            # bounds on x_v from lo_e <= a*x_v + b <= hi_e
+            x1, x2 = (lo_e - b) / a, (hi_e - b) / a
+            lo, hi = min(x1, x2), max(x1, x2)
+            strict = k in ("N", "B") and r.random() < 0.3
+            u = [0] * dim; u[v] = lo.denominator; cs.append(con(">" if strict and lo != hi else ">=", -lo.numerator, u))
+            u = [0] * dim; u[v] = -hi.denominator; cs.append(con(">=", hi.numerator, u))
+        elif k in ("C", "N"):
+            dn = lo_e.denominator * hi_e.denominator
+            cs.append(con(">=", int((b - lo_e) * dn), [x * dn for x in ea]))
+            cs.append(con(">=", int((hi_e - b) * dn), [-x * dn for x in ea]))
+        for i in range(dim):
+            if i != v and r.random() < 0.8:
+                lo = F(p0[i]) - r.choice([0, F(1, 2), 1, F(3, 2)]); hi = F(p0[i]) + r.choice([0, F(1, 2), 1, 2])
+                if r.random() < 0.35: lo = hi = F(p0[i])                     # a segment: x_i fixed
+                u = [0] * dim; u[i] = lo.denominator; cs.append(con(">=", -lo.numerator, u))
+                u = [0] * dim; u[i] = -hi.denominator; cs.append(con(">=", hi.numerator, u))
+        return cs
+    def gridc():
+        gs = []
+        for i in range(dim):
+            if r.random() < 0.7:
+                mm = r.choice([1, 1, 2, 2, 3]); u = [0] * dim; u[i] = 1
+                gs.append(cg(mm, -p0[i], u))
+        if dim > 1 and r.random() < 0.4:
+            u = [r.choice([1, -1, 1, 0]) for _ in range(dim)]
+            if any(u): gs.append(cg(2, -sum(x * y for x, y in zip(u, p0)), u))
+        return gs
+    lines = ["case %s %s %s" % (cid, pair, pol)]
+    for x in (0, 1):
+        lines.append("new %d %d universe" % (x, dim))
+        for w in (1, 2):
+            k = kinds[w - 1]
+            if k == "G": lines.append("set %d %d %s %s" % (x, w, cons_list([]), cgs_list(gridc())))
+            elif x == 0 and (w == 1 or kinds[0] == "G" or r.random() < 0.5): lines.append("set %d %d %s %s" % (x, w, cons_list(slab(k)), cgs_list([])))
+            else: lines.append("set %d %d %s" % (x, w, some_comp(r, dim, k, p0, 0.8)))
+    if r.random() < 0.3: lines.append("red 0")
+    def gen_arg():
+        u = r.random()
+        if u < 0.15:
+            d = [r.choice([0, 0, 1, -1, 2]) for _ in range(dim)]
+            if not any(d): d[0] = 1
+            return "%s 1 %s" % (r.choice(["r", "l"]), " ".join(map(str, d)))
+        dv = r.choice([2, 2, 3, 3, 1, 4])
+        if u < 0.55:    # numerators form an integer point near p0 (satisfying the grid's congruences), the point itself is p/dv
+            num = [p0[i] + r.choice([0, 0, 2, -2, 1]) for i in range(dim)]
+        else:           # a rational point in or near the slab
+            xv = ((lo_e + hi_e) / 2 - b) / a if simple else F(p0[v])
+            num = [int(F(p0[i]) * dv) for i in range(dim)]
+            num[v] = int(xv * dv) + r.choice([0, 0, 1, -1])
+        return "p %d %s" % (dv, " ".join(map(str, num)))
+    def cg_arg():
+        u = r.random()
+        if u < 0.6: return cg(m, b, ea)
+        if u < 0.75: return cg(m, b + r.choice([1, -1, m]), ea)
+        if u < 0.9: return cg(m * 2, b, [2 * x for x in ea]) if r.random() < 0.5 else cg(m, -b, [-x for x in ea])
+        return rand_cg(r, dim)
+    def con_arg():
+        hp = r.choice([m * j, m * (j + 1), -m * j, -m * (j + 1), int(lo_e), int(hi_e)])
+        sgn = r.choice([1, -1])
+        return con(r.choice([">=", ">=", "=", ">"]) if "N" in kinds and all(k in ("N",) for k in kinds) else r.choice([">=", ">=", "="]),
+                   sgn * (b - hp), [sgn * x for x in ea])
+    for _ in range(r.randint(3, 5)):
+        q = r.choice(["relation_with_gen", "relation_with_gen", "relation_with_cg", "relation_with_cg", "relation_with_con",
+                      "contains", "is_disjoint_from", "maximize", "minimize", "bounds_from_above", "is_empty"])
+        if q == "relation_with_gen": lines.append("qry 0 %s %s" % (q, gen_arg()))
+        elif q == "relation_with_cg": lines.append("qry 0 %s %s" % (q, cg_arg()))
+        elif q == "relation_with_con": lines.append("qry 0 %s %s" % (q, con_arg()))
+        elif q in ("contains", "is_disjoint_from"): lines.append("qry %d %s %d" % (r.choice([0, 1]), q, 1 if lines[-1].startswith("qry 1") else r.choice([0, 1]) ^ 1 if False else 1))
+        elif q in ("maximize", "minimize", "bounds_from_above"): lines.append("qry 0 %s %d %s" % (q, r.randint(-2, 2), " ".join(map(str, ea if r.random() < 0.6 else rvec(r, dim)))))
+        else: lines.append("qry 0 is_empty")
+    lines.append("end")
+    return lines
+
+
 def reduce_case(r, cid, pair, pol):
     kinds = KINDS[pair]
     dim = r.choice([1, 2, 2, 2, 3])
@@ -525,6 +629,10 @@ def make_cases(seed, n_shrink, n_reduce, n_ops, steps=5, start=0, n_period=None)
     tr_pairs = ["GC", "CN", "NN", "BC", "SC", "CS", "BO", "NB", "GC", "CG", "NG", "BG"]
     for i in range((n_shrink * 2) if n_period is None else n_period * 2):
         out += transformer_case(rt, "t%d" % cid, tr_pairs[i % len(tr_pairs)], rt.choice(POLICIES)); cid += 1
+    # definite answers of the predicates, all layouts: own random stream
+    rq = random.Random(seed * 13 + 7)
+    for i in range((n_shrink * 2) if n_period is None else n_period * 2):
+        out += predicate_case(rq, "q%d" % cid, PAIRS[i % len(PAIRS)], rq.choice(POLICIES)); cid += 1
     cons_pairs = ["CN", "NN", "BC", "SC", "CN", "NN"]
     for i in range(n_reduce // 2):
         out += exchange_case(r, "x%d" % cid, cons_pairs[i % len(cons_pairs)], r.choice(["K", "K", "P"])); cid += 1
